@@ -94,11 +94,11 @@ def stepObj (variant : String) (o : Obj) (op : String) : Option (String Ã— Obj Ã
     | "lock" =>
       match call m.lock 0 o.owner with
       | some (r, _, o') => some (withSpec (b01 r) "1", { o with owner := o', specHeld := true }, false)
-      | none => some (withSpec "blocks" (if o.specHeld then "blocks" else "1"), o, false)
+      | none => some (withSpec "blocks" (if o.specHeld then "blocks" else "1"), { o with specHeld := true }, false)   -- the spec's lock is taken whatever the model says
     | "try" =>
       match call m.trylock 0 o.owner with
       | some (r, _, o') => some (withSpec (b01 r) (if o.specHeld then "0" else "1"), { o with owner := o', specHeld := true }, false)
-      | none => some ("no-model SPECDIFF ?", o, false)
+      | none => some ("no-model SPECDIFF " ++ (if o.specHeld then "0" else "1"), { o with specHeld := true }, false)   -- the spec does not depend on the model
     | "unlock" =>
       match call m.unlock 0 o.owner with
       | some (r, _, o') => some (withSpec (b01 r) "1", { o with owner := o', specHeld := false }, false)
@@ -114,7 +114,7 @@ def stepObj (variant : String) (o : Obj) (op : String) : Option (String Ã— Obj Ã
         -- thread 1 unlocks again when its wrapper returned TRUE
         let o2 := if r then ((call m.unlock 1 o').map (Â·.2.2)).getD o' else o'
         some (withSpec (b01 r) (if o.specHeld then "0" else "1"), { o with owner := o2 }, false)
-      | none => some ("no-model SPECDIFF ?", o, false)
+      | none => some ("no-model SPECDIFF " ++ (if o.specHeld then "0" else "1"), o, false)
     | _ => none
   | none, none => none
 
